@@ -27,6 +27,8 @@ Inductive case :=
       are then not observable) / by VerifNewForward over in-memory upstreams.
       [qlen]: bytes of this call's packed query (sizes around the 8191 byte scratch
       buffer of pool.PackBuffer and up to 65535 are part of the cases).
+      [cdl]: whole seconds from the start of the call to the deadline of the caller's
+      context ([None]: it has none; cancel-only).
       [n] upstreams, entry [s], configured concurrency [c]; [ordered]: events were
       applied one after the other (each worker seen to finish before the next
       event) / all at once. Observed: the upstream index of every ExchangeContext
@@ -36,7 +38,7 @@ Inductive case :=
       returned and the query buffer went back to the pool), the whole seconds of the upstream deadlines seen from before
       the call (floor) and from inside the upstream (ceil), the outcome, and the
       number of worker goroutines still alive at the end. *)
-| CRun (real : bool) (qlen : N) (n : nat) (s : sel) (c : Z) (ordered : bool) (calls : list nat) (pay_ok : bool)
+| CRun (real : bool) (qlen : N) (cdl : option Z) (n : nat) (s : sel) (c : Z) (ordered : bool) (calls : list nat) (pay_ok : bool)
        (dl : option (Z * Z)) (evs : list ev) (o : obs) (stuck : nat)
   (** QuickConfigureExec on a tag list that does / does not contain an unknown tag *)
 | CQuickErr (n : nat) (bad_tag : bool) (err : bool).
@@ -101,7 +103,7 @@ Definition secs (t : Z) : Z := (t / 1000000000)%Z.
 
 Definition agree (x : case) : bool :=
   match x with
-  | CRun real qlen n s c ordered calls pay_ok dl evs o stuck =>
+  | CRun real qlen cdl n s c ordered calls pay_ok dl evs o stuck =>
     let m := length (effective n (sel_sub s)) in
     let arr := arrivals evs in
     (if m =? 0 then match calls with [] => true | _ => false end
@@ -110,8 +112,9 @@ Definition agree (x : case) : bool :=
     && pay_ok
     && match dl with
        | None => real || match calls with [] => true | _ => false end
-       | Some (lo, hi) => negb real && (secs forward_query_timeout <=? lo)%Z
-                          && (hi <=? secs (forward_query_timeout + 999999999))%Z
+       | Some (lo, hi) =>
+         let t := upstream_deadline (option_map (fun d => d * 1000000000)%Z cdl) in
+         negb real && (secs t <=? lo)%Z && (hi <=? secs (t + 999999999))%Z
        end
     && (if ordered then obs_eqb (res_to_obs (exchange m c arr)) o
         else existsb (fun p => obs_eqb (res_to_obs (exchange m c p)) o) (perms arr))
@@ -154,7 +157,7 @@ Definition spec_outcome (cc : nat) (arr : list arrival) : option obs :=
 
 Definition spec (x : case) : bool :=
   match x with
-  | CRun real qlen n s c ordered calls pay_ok dl evs o stuck =>
+  | CRun real qlen cdl n s c ordered calls pay_ok dl evs o stuck =>
     let ps := match s with SQuick sub => sub | _ => seq 0 n end in
     let m := length ps in
     let cc := spec_cc c in
@@ -166,7 +169,14 @@ Definition spec (x : case) : bool :=
       (* byte for byte, private copy *)
       && pay_ok
       (* fixed 5 s timeout for every upstream exchange *)
-      && match dl with Some (lo, hi) => (5 <=? lo)%Z && (hi <=? 5)%Z | None => real end
+      && match dl with
+         | Some (lo, hi) =>
+           (* never later than 5 s after the call started, whatever the caller's deadline; and not
+              earlier than 5 s either unless the caller itself gives up earlier *)
+           (hi <=? 5)%Z
+           && ((match cdl with Some d => if (d <=? 5)%Z then d - 1 else 5 | None => 5 end) <=? lo)%Z
+         | None => real
+         end
       (* helper goroutines end *)
       && (stuck =? 0)
       && (if ordered then
@@ -202,7 +212,7 @@ Fixpoint bad_then_good (seen_bad : bool) (arr : list arrival) : bool :=
 
 Definition nontrivial (x : case) : bool :=
   match x with
-  | CRun real qlen n s c ordered calls pay_ok dl evs o stuck =>
+  | CRun real qlen cdl n s c ordered calls pay_ok dl evs o stuck =>
     let m := length (effective n (sel_sub s)) in
     let arr := arrivals evs in
     ((2 <=? spec_cc c) && (bad_then_good false arr || existsb is_ctx arr))
